@@ -351,13 +351,19 @@ JSON_SIMPLE_ESCAPES = {'"': '"', '\\': '\\', '/': '/', 'b': '\b', 'f': '\f', 'n'
 JSON_ESCAPES_PATTERN = re.compile(r'\\(["\\/bfnrt])|' + Patterns.unicode_escape.pattern)
 
 
+JSON_ESCAPE_SEQUENCE = re.compile(r'(\\(?:["\\/bfnrt]|u[0-9A-Fa-f]{4}))')
+
+
 def escape_json_string(s: str, escaped: bool = False) -> str:
     if escaped:
-        s = s.replace('\\"', '"')
-    else:
-        s = s.replace('\\', '\\\\')
+        # The valid escape sequences (odd chunks of the split) are kept as they are
+        return ''.join(
+            chunk if k % 2 else escape_json_string(chunk).replace('\\\\', '\\')
+            for k, chunk in enumerate(JSON_ESCAPE_SEQUENCE.split(s))
+        )
 
-    s = s.replace('\"', '\\"').\
+    s = s.replace('\\', '\\\\').\
+        replace('\"', '\\"').\
         replace('\b', r'\b').\
         replace('\r', r'\r').\
         replace('\n', r'\n').\
